@@ -4,6 +4,7 @@ import Netpol.Model.WorldDriver
 import Netpol.Spec.SpecDriver
 import Netpol.Model.HistDriver
 import Netpol.Model.Pipeline
+import Netpol.Model.Format
 open Netpol
 
 def handle (line : String) : String :=
@@ -18,8 +19,8 @@ def handle (line : String) : String :=
     | some "wdiff" => toString (WorldDriver.runWDiff s.args)
     | some "mut" => -- C12: the model of the conversion sites has no panic outcome (Properties/C12)
         toString (Sexp.list [.atom "mut", (s.args.head?).getD (.atom "?"), .atom "nopanic"])
-    | some "wfmt" => -- C18/C08/C09 oracle family: judged by relations between runs of the real code
-        toString (Sexp.list [.atom "wfmt", (s.args.head?).getD (.atom "?"), .atom "done"])
+    | some "wfmt" => -- C18/C08/C09: the bytes of every output format (Model/Format.lean); the oracles run on the Go side
+        toString (Format.runWFmt s.args)
     | some "baddoc" => toString (Pipeline.run s.args)
     | some "wspec" => toString (Spec.SpecDriver.run s.args)
     | _ => "bad-op"
